@@ -17,12 +17,28 @@ def run(ctx):
                  "which is cleared when the output lacks ANSI support", reference=4)
     flag = "_should_overwrite"
     n_sites = 0
+
+    def under_flag(m, call, seen=()):
+        """the call runs only in overwrite mode: guarded in its own method, or the method is a private helper of the bar whose
+        every call site is (transitively) under the flag"""
+        cfg = ctx.cfg(m)
+        if all(guarded_by(cfg, n, lambda e: is_self_attr(e, flag), polarity=True) is not None for n in cfg.nodes_of(call)):
+            return True
+        if not m.name.startswith("_") or m.name.startswith("__") or m.name in seen:
+            return False
+        callers = [(o, c) for o in methods.values() for c in q.method_calls(o, m.name, recv=lambda e: isinstance(e, ast.Name) and e.id == "self")]
+        # a reference to the bound method that is not a call (handed on as a callback) escapes the gate
+        refs = [a for o in methods.values() for a in walk_no_nested(o.node) if isinstance(a, ast.Attribute) and a.attr == m.name and isinstance(a.value, ast.Name) and a.value.id == "self"]
+        if not callers or len(refs) != len(callers):
+            return False
+        return all(under_flag(o, c, seen + (m.name,)) for o, c in callers)
+
     for name, m in sorted(methods.items()):
         cfg = ctx.cfg(m)
         for c in q.calls(m):
             if isinstance(c.func, ast.Attribute) and "write" in c.func.attr and has_control(c):
                 n_sites += 1
-                g = all(guarded_by(cfg, n, lambda e: is_self_attr(e, flag), polarity=True) is not None for n in cfg.nodes_of(c))
+                g = under_flag(m, c)
                 if g:
                     r.ok("%s: %s under self.%s" % (m.short, norm(c)[:40], flag))
                 else:
@@ -34,7 +50,7 @@ def run(ctx):
         for c in q.calls(m):
             if isinstance(c.func, ast.Attribute) and c.func.attr == "clear" and is_self_attr(c.func.value) and c.args:
                 n_sites += 1
-                g = all(guarded_by(cfg, n, lambda e: is_self_attr(e, flag), polarity=True) is not None for n in cfg.nodes_of(c))
+                g = under_flag(m, c)
                 if g:
                     r.ok("%s: %s under self.%s" % (m.short, norm(c)[:40], flag))
                 else:
